@@ -14,7 +14,7 @@ def ConnAck.occs (p : ConnAck) : List PropOcc := occsOf (connackFields p) ++ upO
 def ConnAck.abs (p : ConnAck) : SPacket := .connack (p.flags == 1) p.reasonCode p.occs
 
 theorem ConnAck.props_eq (p : ConnAck) (h : UpsInRange p.userProps) : p.props = propBytes p.occs := by
-  rw [(Tie.T2_connack p).1, encFields_eq, encUserProps_eq _ (ups_keys _ h), ← propBytes_append]; rfl
+  rw [(Tie.M2_connack p), encFields_eq, encUserProps_eq _ (ups_keys _ h), ← propBytes_append]; rfl
 
 theorem E_connack (p : ConnAck) (h : p.InDomain) :
     p.abs.Legal ∧ p.abs.unparse = p.encode ∧ p.abs.view = (Packet.connack p).view := by
